@@ -293,12 +293,28 @@ def extract(repo):
     if not (0 <= i1 < i2 < i3) or "severity: self.get_severity(code)" not in ad or "code.get_name().to_string()" not in ad \
             or not re.search(r"range:\s*self\.translate_range\(range\)\.unwrap_or\(", ad):
         raise Anchor("add_diagnostic changed shape")
+    # ---- get_diagnostics: plain move of the vector, or order-preserving removal of exact duplicates
+    gd = fn_body(mod_rs, "get_diagnostics", "checker/mod.rs").strip()
+    if re.fullmatch(r"self\.diagnostics", gd):
+        t["dedup"] = False
+    elif (re.search(r"for\s+diagnostic\s+in\s+self\.diagnostics\s*\{", gd) and re.search(r"\.any\(\|&i\|\s*diagnostics\[i\]\s*==\s*diagnostic\)\s*\{\s*continue;\s*\}", gd)
+          and "diagnostics.push(diagnostic);" in gd and gd.endswith("diagnostics") and gd.count("continue;") == 1 and "return" not in gd):
+        t["dedup"] = True
+    else:
+        raise Anchor("get_diagnostics changed shape")
+    for ff in sorted(glob.glob(os.path.join(cdir, "**", "*.rs"), recursive=True)):
+        if os.path.relpath(ff, cdir) == "mod.rs":
+            continue
+        if re.search(r"\.diagnostics\b(?!_)", strip_comments(_read(ff)).replace("pending_diagnostics", "")):
+            raise Anchor("a checker touches the diagnostics vector directly: %s" % ff)
     # ---- diagnose_file gates
     ld = strip_comments(_read(os.path.join(ca, "diagnostic/lua_diagnostic.rs")))
     df = fn_body(ld, "diagnose_file", "lua_diagnostic.rs")
     g1 = re.search(r"if\s+!self\.enable\s*\{\s*return\s+None;\s*\}", df)
     g2 = re.search(r"if\s+let\s+Some\(module_info\)\s*=\s*db\.get_module_index\(\)\.get_workspace_id\(file_id\)\s*&&\s*!module_info\.is_main\(\)\s*\{\s*return\s+None;\s*\}", df)
     g3 = df.find("check_file(&mut context, &semantic_model)")
+    if not df.strip().endswith("Some(context.get_diagnostics())"):
+        raise Anchor("diagnose_file no longer returns context.get_diagnostics()")
     if not g1 or not g2 or g3 < 0 or not (g1.start() < g2.start() < g3):
         raise Anchor("diagnose_file gates changed shape")
     uc = fn_body(ld, "update_config", "lua_diagnostic.rs")
@@ -378,6 +394,9 @@ def to_coq(t):
     w("(** order of the tests in [DiagnosticContext::is_checker_enable_by_code] before the default *)")
     w("Inductive chain_test : Set := FileEnable | WsDisable | Meta | FileDisable | WsEnable.")
     w("Definition chain_order : list chain_test := [" + "; ".join(t["chain"]) + "].")
+    w("")
+    w("(** does [DiagnosticContext::get_diagnostics] drop exact duplicates (keeping first occurrences)? *)")
+    w("Definition dedup_diagnostics : bool := %s." % ("true" if t["dedup"] else "false"))
     w("")
     w("(** [WorkspaceId::MAIN] *)")
     w("Definition main_workspace_id : N := %d%%N." % t["main_id"])
